@@ -33,6 +33,18 @@ class MyType(object):
         return hash(self.x)
 
 
+class Shards(object):
+    """a result that its codec writes as a directory (one file per part), like a partitioned table"""
+    def __init__(self, parts):
+        self.parts = list(parts)
+
+    def __eq__(self, o):
+        return isinstance(o, Shards) and o.parts == self.parts
+
+    def __hash__(self):
+        return hash(tuple(self.parts))
+
+
 class TaggedStr(str):
     """a subclass of str that carries an attribute: not a text result, must come back as itself"""
     def __new__(cls, s, tag=None):
@@ -94,6 +106,29 @@ def user_codecs():
     return MyFileCodec(), ShadowStrCodec()
 
 
+def dir_codec():
+    """a user codec of the generic kind (it receives a location, not a local file) that writes its blob as a directory"""
+    from dds.structures import CodecProtocol, ProtocolRef
+    from dds.structures_utils import SupportedTypeUtils as STU
+
+    class ShardsCodec(CodecProtocol):
+        def ref(self):
+            return ProtocolRef("user.shards_dir")
+
+        def handled_types(self):
+            return [STU.from_type(Shards)]
+
+        def serialize_into(self, blob, loc):
+            os.makedirs(str(loc))
+            for i, part in enumerate(blob.parts):
+                with open(os.path.join(str(loc), "part-%05d" % i), "w") as f:
+                    f.write(repr(part))
+
+        def deserialize_from(self, loc):
+            return Shards([eval(open(os.path.join(str(loc), n)).read()) for n in sorted(os.listdir(str(loc)))])
+    return ShardsCodec()
+
+
 CHILD = r"""
 import sys, json, pickle
 sys.path.insert(0, %r); sys.path.insert(0, %r)
@@ -104,6 +139,7 @@ from dds.codec import codec_registry
 a, b = c17.user_codecs()
 codec_registry().add_file_codec(b)
 codec_registry().add_file_codec(a)
+codec_registry().add_codec(c17.dir_codec())
 st = LocalFileStore(sys.argv[1], sys.argv[2])
 keys = json.loads(sys.argv[3])
 out = {}
@@ -128,6 +164,8 @@ def canon_value(v):
         pass
     if isinstance(v, MyType):
         return ("mytype", v.x)
+    if isinstance(v, Shards):
+        return ("shards", list(v.parts))
     if type(v) is TaggedStr:
         return ("TaggedStr", str(v), v.tag)
     if type(v) is Digest:
@@ -157,6 +195,7 @@ def values(rng):
           ("bytes_empty", b""), ("bytes", b"\x00\xff\x10abc"), ("bytes_big", bytes(range(256)) * 4000), ("none", None),
           ("int", 12345678901234567890), ("list", [1, "a", None]), ("dict", {"k": [1, 2]}), ("object", {"s": {1, 2}}),
           ("mytype", MyType(("a", 1))),
+          ("shards", Shards([("a", 1), ("b", 2), ("c", 3)])),
           # instances of SUBCLASSES of the types that have a dedicated codec: they are objects, not text / bytes
           ("str_subclass", TaggedStr("grüß", tag=7)), ("bytes_subclass", Digest(b"\x00\x01\xff")), ("str_enum", Color.BLUE)]
     try:
@@ -230,6 +269,7 @@ def run(ctx):
         st = LocalFileStore(internal, data)
         mycodec, shadow = user_codecs()
         codec_registry().add_file_codec(mycodec)
+        codec_registry().add_codec(dir_codec())
         vs = values(rng)
         written = {}
         from collections import OrderedDict
